@@ -644,10 +644,13 @@ func R5(pkgs ...string) func(p *core.Prog) *core.Result {
 					}
 					continue
 				case sameWidthSign && !isDecodeOrLengthSink(p, cv):
-					// same-width reinterpretation away from a sink: not judged (the sign is carried separately, e.g. json.onInt's (neg, magnitude) pair)
-					r.Stats["same_width_reinterpretations_not_at_a_sink"]++
-					total--
-					continue
+					// same-width reinterpretation away from a decode/length sink: only the sites confirmed by reading are
+					// accepted, each with a mechanically checked premise; anything new is judged like any other conversion
+					if why, ok := acceptedReinterpretation(p, f, cv); ok {
+						r.Stats["same_width_reinterpretations_accepted"]++
+						r.Ok(".CONV", pos, fkey+": "+desc+" is an accepted sign reinterpretation: "+why)
+						continue
+					}
 				}
 				kind := "F1 narrowing"
 				if sameWidthSign {
@@ -1026,4 +1029,69 @@ func isLengthPush(c *ssa.Call) bool {
 		return n != nil && n.Obj().Name() == "lengthStack"
 	}
 	return sc.Name() == "pushLen"
+}
+
+// acceptedReinterpretation: the frozen list of same-width sign
+// reinterpretations that are not value changes, with the premise that makes
+// each of them harmless (checked on every run).
+func acceptedReinterpretation(p *core.Prog, f *ssa.Function, cv *ssa.Convert) (string, bool) {
+	switch core.FuncKey(f) {
+	case "json.(*Visitor).onInt":
+		// uint64(v) is the magnitude operand of onNumber(neg, u); the sign travels in the first argument, computed from the same v
+		if refs := cv.Referrers(); refs != nil {
+			for _, rf := range *refs {
+				c, ok := rf.(*ssa.Call)
+				if !ok || len(c.Common().Args) < 3 {
+					continue
+				}
+				if cmp, ok := c.Common().Args[1].(*ssa.BinOp); ok && cmp.Op == token.LSS && cmp.X == cv.X && isIntConst(cmp.Y, 0) {
+					return "the sign is passed alongside as v < 0 of the same v (two's-complement magnitude, negated by the callee)", true
+				}
+			}
+		}
+		return "", false
+	case "cborl.(*Visitor).arrLen":
+		// uint64(len): every caller passes a builtin len(x), which is never negative
+		prm, ok := cv.X.(*ssa.Parameter)
+		if !ok {
+			return "", false
+		}
+		idx := paramIndex(f, prm)
+		callers := 0
+		for _, g := range p.ModFuncs() {
+			for _, b := range g.Blocks {
+				for _, in := range b.Instrs {
+					c, ok := in.(*ssa.Call)
+					if !ok || c.Common().StaticCallee() != f {
+						continue
+					}
+					callers++
+					a, ok := c.Common().Args[idx].(*ssa.Call)
+					if !ok {
+						return "", false
+					}
+					if bi, ok := a.Common().Value.(*ssa.Builtin); !ok || bi.Name() != "len" {
+						return "", false
+					}
+				}
+			}
+		}
+		if callers == 0 {
+			return "", false
+		}
+		return fmt.Sprintf("all %d callers pass len(x), which is never negative", callers), true
+	case "cborl.readInt16", "cborl.readInt32", "cborl.readInt64":
+		// two's-complement readers kept from the ubjson twin; harmless only while nothing calls them
+		for _, g := range p.ModFuncs() {
+			for _, b := range g.Blocks {
+				for _, in := range b.Instrs {
+					if c, ok := in.(ssa.CallInstruction); ok && c.Common().StaticCallee() == f {
+						return "", false
+					}
+				}
+			}
+		}
+		return "the helper has no caller (CBOR integers are not two's complement; a call would have to be judged)", true
+	}
+	return "", false
 }
